@@ -189,9 +189,26 @@ impl Env {
 
     /// instruction shapes of the model: 1 = only the executor wallet signs, 2 = nobody signs,
     /// 3 = another account is flagged signer (must be refused at creation)
+    /// Further ids 10 * variant + class (same classes): the wallet as READ-ONLY signer, as read-only
+    /// non-signer, no accounts at all, empty data (acc_y stays read-only, acc_x at most writable: the
+    /// remaining accounts passed to execute_instruction carry exactly those privileges).
     fn shape(&self, sh: i64) -> (Vec<(Pubkey, bool, bool)>, Vec<u8>) {
-        let metas = vec![(self.wallet, sh == 1, true), (self.acc_x, sh == 3, true), (self.acc_y, false, false)];
-        (metas, vec![0xC3, 0x60, sh as u8, 7, 7])
+        let (w, x, y) = (self.wallet, self.acc_x, self.acc_y);
+        match sh {
+            11 => (vec![(w, true, false), (x, false, true), (y, false, false)], vec![1]),
+            12 => (vec![(w, false, false), (y, false, false)], vec![0]),
+            13 => (vec![(y, true, false)], vec![3]),
+            21 => (vec![(w, true, false), (x, false, false)], vec![2, 2]),
+            22 => (vec![], vec![5]),
+            23 => (vec![(w, true, true), (y, true, false)], vec![]),
+            31 => (vec![(x, false, true), (w, true, false), (y, false, false)], vec![]),
+            32 => (vec![], vec![]),
+            33 => (vec![(x, true, false), (w, false, false)], vec![4]),
+            _ => {
+                let metas = vec![(w, sh == 1, true), (x, sh == 3, true), (y, false, false)];
+                (metas, vec![0xC3, 0x60, sh as u8, 7, 7])
+            }
+        }
     }
     fn ix_json(&self, prog: &Pubkey, metas: &[(Pubkey, bool, bool)], data: &[u8]) -> Value {
         json!({"prog": self.name(prog),
@@ -436,6 +453,11 @@ fn run(args: &Args) {
         // the delay grows while an approval is pending
         vec![("create", 1, 1), ("approve", 1, 2), ("increase_delay", 0, 0), ("increase_delay", 0, 3), ("tick", 0, 2), ("execute", 1, 0),
              ("tick", 0, 2), ("execute", 1, 0), ("tick", 0, 1), ("execute", 1, 0)],
+        // every further instruction shape is buffered, approved and executed (read-only signer wallet, no accounts, no data ..)
+        vec![("create", 1, 11), ("create", 2, 12), ("approve", 1, 1), ("approve", 2, 1), ("tick", 0, 3), ("execute", 1, 0), ("execute", 2, 0),
+             ("create", 1, 21), ("create", 2, 22), ("approve", 1, 2), ("approve", 2, 2), ("tick", 0, 3), ("execute", 1, 0), ("execute", 2, 0),
+             ("create", 1, 31), ("create", 2, 32), ("approve", 1, 1), ("approve", 2, 2), ("tick", 0, 3), ("execute", 1, 0), ("execute", 2, 0),
+             ("create", 1, 13), ("create", 1, 23), ("create", 2, 33)],
         // exactly at the boundary: now = approved_at + delay - 1, then = approved_at + delay
         vec![("create", 1, 1), ("create", 2, 2), ("approve", 1, 1), ("approve", 2, 2), ("execute", 1, 0), ("tick", 0, 1), ("execute", 1, 0),
              ("execute", 2, 0), ("tick", 0, 1), ("execute", 1, 0), ("execute", 2, 0)],
@@ -460,7 +482,7 @@ fn run(args: &Args) {
             let b = 1 + rng.below(NB as u64) as usize;
             let a = 1 + rng.below(NA as u64) as i64;
             let (op, b, x) = match rng.below(20) {
-                0..=3 => ("create", b, *rng.pick(&[1i64, 1, 2, 2, 3])),
+                0..=3 => ("create", b, *rng.pick(&[1i64, 1, 2, 2, 3, 11, 11, 12, 13, 21, 22, 23, 31, 31, 32, 33])),
                 4..=7 => ("approve", b, a),
                 8..=12 => ("execute", b, 0),
                 13 => ("cancel", b, 0),
